@@ -1,0 +1,27 @@
+// Copyright 2020-2025 Buf Technologies, Inc.
+//
+// Licensed under the Apache License, Version 2.0 (the "License");
+// you may not use this file except in compliance with the License.
+// You may obtain a copy of the License at
+//
+//      http://www.apache.org/licenses/LICENSE-2.0
+//
+// Unless required by applicable law or agreed to in writing, software
+// distributed under the License is distributed on an "AS IS" BASIS,
+// WITHOUT WARRANTIES OR CONDITIONS OF ANY KIND, either express or implied.
+// See the License for the specific language governing permissions and
+// limitations under the License.
+
+//go:build verif
+
+package buftransport
+
+// Contracts for the gocv verifier (see /verif/DESIGN.md), author ca-W. Comment-only.
+//
+// C19 (the address a registry client dials is the host it was made for, plus the scheme).
+//@ pure func PrependHTTP(address) (r)
+//@   property C19
+//@   ensures r == "http://" + address
+//@ pure func PrependHTTPS(address) (r)
+//@   property C19
+//@   ensures r == "https://" + address
